@@ -16,6 +16,15 @@ def __parse_header(row) -> dict:
     return res
 
 
+def __skip_bom(lines):
+    first = True
+    for line in lines:
+        if first and line.startswith('\ufeff'):
+            line = line[1:]
+        first = False
+        yield line
+
+
 def __parse_str(_val: str):
     if _val == '':
         return None
@@ -66,7 +75,7 @@ __DEFAULT_FIELDS = [
 def read_csv(path: str, encoding='utf-8', delimiter=';') -> WBS:
     raws: List[TaskRaw] = []
     with open(path, mode='r', encoding=encoding, newline='\n') as input_file:
-        csvfile = csv.reader(input_file, delimiter=delimiter)
+        csvfile = csv.reader(__skip_bom(input_file), delimiter=delimiter)
         header = __parse_header(next(csvfile))
         for row in csvfile:
             kwargs = {}
